@@ -878,6 +878,7 @@ class Model:
         #   a function whose NAME is used as a value (stored in a table, passed as an argument) may be called by whoever can see that value;
         #   operator.methodcaller('m', ...) / getattr(x, 'm') may call any method named m.
         reflect = []           # (fn, param name or None, constant name or None)
+        computed = []          # (fn, expression building the name, call node)
         for fn in self.funcs.values():
             call_funcs = {id(n.func) for n in ast.walk(fn.node) if isinstance(n, ast.Call)}
             for n in ast.walk(fn.node):
@@ -916,7 +917,8 @@ class Model:
                         elif isinstance(a0, ast.Name) and a0.id in fn.params:
                             reflect.append((fn, a0.id, None, n))
                         else:
-                            # a name computed locally (getter = TABLE[side]; 'get_' + side is not followed): every string the defining expressions can yield
+                            computed.append((fn, a0, n))
+                            # a name computed locally (getter = TABLE[side]): every string the defining expressions can yield
                             exprs = [a0]
                             if isinstance(a0, ast.Name):
                                 exprs = [s_.value for s_ in ast.walk(fn.node) if isinstance(s_, ast.Assign) and any(isinstance(t_, ast.Name) and t_.id == a0.id for t_ in s_.targets)]
@@ -948,6 +950,59 @@ class Model:
                         elif isinstance(a, ast.Name) and a.id in caller.params:
                             got.extend(strings_passed(caller, a.id, depth + 1))
             return got
+        def str_values(fn, ex, depth=0):
+            """the strings expression ex of fn can denote: constants, parameters (what the call sites pass), and '%'/+/f-string/format/case changes of those"""
+            if depth > 6:
+                return None
+            if isinstance(ex, ast.Constant) and isinstance(ex.value, str):
+                return {ex.value}
+            if isinstance(ex, ast.Name):
+                if ex.id in fn.params:
+                    return set(strings_passed(fn, ex.id)) or None
+                vals = [s_.value for s_ in ast.walk(fn.node) if isinstance(s_, ast.Assign) and any(isinstance(t_, ast.Name) and t_.id == ex.id for t_ in s_.targets)]
+                got = [str_values(fn, v_, depth + 1) for v_ in vals]
+                return set().union(*got) if got and all(g_ is not None for g_ in got) else None
+            if isinstance(ex, ast.BinOp) and isinstance(ex.op, ast.Add):
+                a, b = str_values(fn, ex.left, depth + 1), str_values(fn, ex.right, depth + 1)
+                return {x + y for x in a for y in b} if a is not None and b is not None and len(a) * len(b) <= 64 else None
+            if isinstance(ex, ast.BinOp) and isinstance(ex.op, ast.Mod) and isinstance(ex.left, ast.Constant) and isinstance(ex.left.value, str):
+                parts = list(ex.right.elts) if isinstance(ex.right, ast.Tuple) else [ex.right]
+                vs = [str_values(fn, p_, depth + 1) for p_ in parts]
+                if any(v_ is None for v_ in vs) or ex.left.value.count('%s') != len(parts) or ex.left.value.count('%') != len(parts):
+                    return None
+                outs = {ex.left.value}
+                for v_ in vs:
+                    outs = {o_.replace('%s', x_, 1) for o_ in outs for x_ in v_}
+                    if len(outs) > 64:
+                        return None
+                return outs
+            if isinstance(ex, ast.JoinedStr):
+                outs = {''}
+                for p_ in ex.values:
+                    v_ = {p_.value} if isinstance(p_, ast.Constant) else (str_values(fn, p_.value, depth + 1) if isinstance(p_, ast.FormattedValue) and p_.format_spec is None and p_.conversion == -1 else None)
+                    if v_ is None:
+                        return None
+                    outs = {o_ + x_ for o_ in outs for x_ in v_}
+                    if len(outs) > 64:
+                        return None
+                return outs
+            if isinstance(ex, ast.Call) and isinstance(ex.func, ast.Attribute) and not ex.keywords:
+                if ex.func.attr in ('lower', 'upper', 'strip') and not ex.args:
+                    b = str_values(fn, ex.func.value, depth + 1)
+                    return {getattr(x_, ex.func.attr)() for x_ in b} if b is not None else None
+                if ex.func.attr == 'format' and isinstance(ex.func.value, ast.Constant) and isinstance(ex.func.value.value, str):
+                    vs = [str_values(fn, p_, depth + 1) for p_ in ex.args]
+                    tmpl = ex.func.value.value
+                    if any(v_ is None for v_ in vs) or tmpl.count('{}') != len(vs) or tmpl.count('{') != len(vs):
+                        return None
+                    outs = {tmpl}
+                    for v_ in vs:
+                        outs = {o_.replace('{}', x_, 1) for o_ in outs for x_ in v_}
+                    return outs
+            return None
+        for fn, ex, n in computed:
+            for nm_ in sorted(str_values(fn, ex) or ()):
+                reflect.append((fn, None, nm_, n))
         for fn, pname, const, n in reflect:
             names = [const] if const else []
             if pname:
